@@ -38,7 +38,8 @@ SPEC = dict(
           "accepts repeated SetProtocol calls; scope oracles off). In 1/4 of the runs a returning-peer scenario follows: a third real node keeps a stream of protocol X open on the listener "
           "while the dialer, after using X, is disconnected for 130|190|250 virtual seconds (2-4 resource-manager gc runs; control: "
           "the third node's stream ends first), then re-dials and opens X again; all three managers audited. "
-          "non-trivial = at least one open verified end-to-end (echo tagged by the model-approved "
+          "1/4 of the runs are cold (no Connect: the first opens dial and meet the first identify exchange); 1/3 of the non-final "
+          "rounds hand over without a quiescent instant. non-trivial = at least one open verified end-to-end (echo tagged by the model-approved "
           "handler) and (>=2 opens or >=1 mutation after connect); distinct = distinct (scheduler decision hash, host kinds, "
           "mutation sequence, per-open request list and outcome)"),
     probes=["lazy-ok", "eager-ok", "eager-fallback-ok", "match-handler-ran", "overlapping-handlers-resolved",
@@ -49,7 +50,7 @@ SPEC = dict(
             "first-read-races-first-write-lazy", "first-read-races-first-write-eager",
             "read-only-client-lazy", "read-only-client-eager", "null-resource-manager",
             "second-round-trip-after-idle-lazy", "second-round-trip-after-idle-eager",
-            "holder-keeps-protocol-scope-alive", "dialer-away-for-gc-periods", "returning-peer-open-ok",
+            "cold-first-contact", "round-boundary-without-quiescence", "holder-keeps-protocol-scope-alive", "dialer-away-for-gc-periods", "returning-peer-open-ok",
             "transport-tcp", "transport-quic", "transport-webtransport", "lazy-ok-quic", "eager-ok-quic", "lazy-ok-webtransport",
             "eager-ok-webtransport", "verified-under-udp-loss", "second-round-trip-after-idle-quic",
             "second-round-trip-after-40s-idle-quic",
